@@ -176,4 +176,82 @@ var props = map[string]PropSpec{
 		Assumptions: []string{"a text that ends with ';' after a complete formula is tolerated by the parser on purpose (trailing separator); such texts are excluded from the corruption generator as doubtful"},
 		Outside:     "longer texts; identifiers other than a, b, ab; comments and string literals that text/scanner recognises",
 	},
+	"C04": {
+		ID: "C04",
+		Quick: []HarnessRun{
+			{Name: "maxsat.VP_C04_maxsat_api", Kind: "E", Params: map[string]int{"m": 2, "k": 1, "W": 2, "CW": 2}, Bounds: "<=2 constraints on one variable each out of {a,b,c}, hard or soft (weight in [1,2]), clause / cardinality / PB shape, symbolic signs; every iteration order of the weight map", Require: []string{"sat", "unsat"}},
+			{Name: "maxsat.VP_C04_maxsat_api", Kind: "E", Params: map[string]int{"m": 1, "k": 3, "W": 2, "CW": 2}, Bounds: "one constraint on <=3 variables, any shape, coefficients in [1,2]", Require: []string{"sat"}},
+			{Name: "maxsat.VP_C04_maxsat_api", Kind: "E", Params: map[string]int{"m": 2, "k": 2, "W": 1, "CW": 1}, Bounds: "<=2 constraints on <=2 variables each, unit weights and coefficients, symbolic signs and degrees", Require: []string{"sat", "unsat"}},
+			{Name: "maxsat.VP_C04_maxsat_wcnf", Kind: "E", Params: map[string]int{"n": 2, "m": 2, "k": 2, "W": 2}, Bounds: "WCNF texts: <=2 variables used, 0..1 declared-but-unused, <=2 clauses x <=2 literals, weights in [1,2] (or top = 3 for hard), with and without top; Optimal(nil) and Optimal(channel)", Require: []string{"wcnf"}},
+		},
+		Thorough: []HarnessRun{
+			{Name: "maxsat.VP_C04_maxsat_api", Kind: "E", Params: map[string]int{"m": 2, "k": 2, "W": 2, "CW": 2}, Bounds: "<=2 constraints on <=2 variables, weights and coefficients in [1,2]", Require: []string{"sat", "unsat"}},
+			{Name: "maxsat.VP_C04_maxsat_wcnf", Kind: "E", Params: map[string]int{"n": 2, "m": 3, "k": 2, "W": 2}, Bounds: "WCNF with <=3 clauses", Require: []string{"wcnf"}},
+		},
+		Assumptions: []string{"each variable occurs at most once inside a constraint"},
+		Outside:     "more than 2 constraints through the API / 3 clauses through WCNF; weights above 2; constraints repeating a variable",
+	},
+	"C13": {
+		ID: "C13",
+		Quick: []HarnessRun{
+			{Name: "solver.VP_C13_dimacs", Kind: "E", Params: map[string]int{"n": 2, "m": 1, "k": 2}, Bounds: "DIMACS: header with 0..1 unused declared variables, optional comment lines, <=1 clause of <=2 literals whose sign, digit and separator bytes are symbolic (blank, tab, newline, doubled blanks), LF/CRLF/no final newline", Require: []string{"dimacs", "clauses"}},
+			{Name: "solver.VP_C13_dimacs", Kind: "E", Params: map[string]int{"n": 2, "m": 2, "k": 1}, Bounds: "DIMACS: <=2 clauses of <=1 literal (several clauses on a line, empty clauses)", Require: []string{"dimacs", "clauses"}},
+			{Name: "solver.VP_C13_opb", Kind: "E", Params: map[string]int{"n": 2, "m": 1, "k": 2, "W": 2, "D": 3, "layout": 0}, Bounds: "OPB: optional min: line over <=2 variables (weights in [0,2]), one constraint of <=2 terms, coefficients in [-2,2], >= or =, degree in [-3,3]", Require: []string{"opb"}},
+			{Name: "solver.VP_C13_opb", Kind: "E", Params: map[string]int{"n": 2, "m": 2, "k": 1, "W": 1, "D": 1, "CW": 1}, Bounds: "OPB: two constraints of one term (contradictory / repeated units, trivially true and false constraints), comment lines, explicit + signs", Require: []string{"opb"}},
+			{Name: "maxsat.VP_C04_maxsat_wcnf", Kind: "E", Params: map[string]int{"n": 2, "m": 2, "k": 2, "W": 2, "chan": 0}, Bounds: "WCNF texts as in C04, judged by the optimum they yield", Require: []string{"wcnf"}},
+		},
+		Thorough: []HarnessRun{
+			{Name: "solver.VP_C13_dimacs", Kind: "E", Params: map[string]int{"n": 2, "m": 2, "k": 2}, Bounds: "DIMACS: <=2 clauses x <=2 literals, symbolic bytes", Require: []string{"dimacs", "clauses"}},
+			{Name: "solver.VP_C13_opb", Kind: "E", Params: map[string]int{"n": 2, "m": 1, "k": 2, "W": 2, "D": 3}, Bounds: "OPB as quick with all layout variants", Require: []string{"opb"}},
+			{Name: "solver.VP_C13_opb", Kind: "E", Params: map[string]int{"n": 3, "m": 1, "k": 3, "W": 1, "D": 2, "layout": 0, "CWlo": -1}, Bounds: "OPB: 3 variables, negative objective coefficients", Require: []string{"opb"}},
+		},
+		Assumptions: []string{"OPB and WCNF numbers are concretised when the text is rendered (solver-enumerated), DIMACS body bytes stay symbolic", "layouts of doubtful well-formedness are not generated: a comment line after a blank line, blanks after the terminating ';', a min: line that is not first"},
+		Outside:     "files with more symbolic content than stated; the 64 KiB line limit of bufio.Scanner; numbers of more than one digit",
+	},
+	"C14": {
+		ID: "C14",
+		Quick: []HarnessRun{
+			{Name: "solver.VP_C14_cp_clash", Kind: "L", Params: map[string]int{"n": 3}, Bounds: "pbSet.clash on two constraints over 3 variables, |weight| <= 2^20, degree in [1, 2^22], every assignment; integer printer", Require: []string{"clash"}},
+			{Name: "solver.VP_C14_cp_clash", Kind: "L", Params: map[string]int{"n": 2, "W": 3, "C": 7, "int": 0}, Bounds: "same lemma with the bit-vector printer, |weight| <= 3, degree <= 7", Require: []string{"clash"}},
+			{Name: "solver.VP_C14_cp_round", Kind: "L", Params: map[string]int{"n": 3}, Bounds: "pbSet.roundToOne (for every solver assignment of the 3 variables and every locked variable) and pbSet.divideBy, |weight| <= 2^20, degree in [1, 2^22]; integer printer", Require: []string{"divide", "round"}},
+			{Name: "solver.VP_C02_pb_units", Kind: "E", Params: map[string]int{"n": 3, "W": 2, "D": 5, "cp": 1}, Bounds: "C02 pb_units inputs with CuttingPlanes symbolic (on/off), in-situ monitor: every learned constraint and derived unit is implied by the problem (symbolic assignment); lemma preconditions asserted at divideBy", Require: []string{"sat", "unsat", "cp-unit"}},
+			{Name: "solver.VP_C01_cnf_slice", Kind: "E", Params: map[string]int{"n": 3, "m": 2, "k": 2, "cp": 1, "amo": 1}, Bounds: "CNF n<=3, <=2 clauses x <=2 literals, CuttingPlanes on/off x DetectAtMostOne on/off", Require: []string{"sat", "unsat"}},
+			{Name: "solver.VP_C03_optim_pb", Kind: "E", Params: map[string]int{"n": 2, "k": 2, "kc": 2, "W": 2, "PW": 2, "cp": 1}, Bounds: "C03 optim_pb inputs (n=2) with CuttingPlanes on/off: same optimum as the reference", Require: []string{"sat", "unsat"}},
+		},
+		Thorough: []HarnessRun{
+			{Name: "solver.VP_C14_cp_clash", Kind: "L", Params: map[string]int{"n": 4}, Bounds: "clash over 4 variables", Require: []string{"clash"}},
+			{Name: "solver.VP_C14_cp_round", Kind: "L", Params: map[string]int{"n": 4}, Bounds: "roundToOne / divideBy over 4 variables", Require: []string{"divide", "round"}},
+			{Name: "solver.VP_C02_pb_units", Kind: "E", Params: map[string]int{"n": 3, "W": 3, "D": 8, "cp": 1, "amo": 1}, Bounds: "pb_units with coefficients up to 3, cp x amo", Require: []string{"sat", "unsat", "cp-unit"}},
+			{Name: "solver.VP_C02_card_units", Kind: "E", Params: map[string]int{"n": 4, "cp": 1, "amo": 1}, Bounds: "card_units with 4 variables, cp x amo", Require: []string{"sat"}},
+			{Name: "solver.VP_C01_cnf_slice", Kind: "E", Params: map[string]int{"n": 3, "m": 3, "k": 2, "cp": 1, "amo": 1}, Bounds: "CNF n<=3, <=3 clauses", Require: []string{"sat", "unsat"}},
+			{Name: "solver.VP_C03_optim_pb", Kind: "E", Params: map[string]int{"n": 3, "k": 3, "kc": 2, "W": 2, "PW": 2, "cp": 1}, Bounds: "optim_pb n=3 with cp", Require: []string{"sat", "unsat"}},
+		},
+		Assumptions: []string{"the arithmetic lemmas assume the degree stays >= 1 after weakening; that precondition is asserted in situ at every divideBy call of the end-to-end runs"},
+		Outside:     "Luby restarts and PB clause deletion (need hundreds of conflicts); problems beyond 3-4 variables",
+	},
+	"C15": {
+		ID: "C15",
+		Quick: []HarnessRun{
+			{Name: "solver.VP_C15_amo_equiv", Kind: "L", Params: map[string]int{"skeletons": 1, "maxsigns": 8}, Bounds: "12 clause skeletons rich in binary clauses (triangle, K4, K4 minus an edge in two orders, triangles sharing an edge, repeated clause, pendant clauses, disjoint triangles, cliques between unrelated clauses, star), the signs of the first 8 literals symbolic; equivalence before/after for a symbolic assignment", Require: []string{"card-detected", "nothing-detected"}},
+			{Name: "solver.VP_C15_amo_equiv", Kind: "L", Params: map[string]int{"n": 3, "m": 3, "k": 2}, Bounds: "all CNF with <=3 clauses x <=2 literals over 3 variables, literals fully symbolic", Require: []string{"card-detected", "nothing-detected"}},
+		},
+		Thorough: []HarnessRun{
+			{Name: "solver.VP_C15_amo_equiv", Kind: "L", Params: map[string]int{"skeletons": 1, "maxsigns": 14}, Bounds: "skeletons with up to 14 symbolic signs", Require: []string{"card-detected", "nothing-detected"}},
+			{Name: "solver.VP_C15_amo_equiv", Kind: "L", Params: map[string]int{"n": 3, "m": 4, "k": 2}, Bounds: "<=4 clauses x <=2 literals over 3 variables", Require: []string{"card-detected", "nothing-detected"}},
+			{Name: "solver.VP_C15_amo_equiv", Kind: "L", Params: map[string]int{"n": 4, "m": 3, "k": 2}, Bounds: "<=3 clauses over 4 variables", Require: []string{"nothing-detected"}},
+		},
+		Outside: "larger cliques than K4; PB problems (DetectAtMostOne only looks at binary clauses); the end-to-end effect is covered by the amo=1 rows of C14",
+	},
+	"C18": {
+		ID: "C18",
+		Quick: []HarnessRun{
+			{Name: "solver.VP_C18_print_roundtrip", Kind: "E", Params: map[string]int{"n": 2, "m": 2, "k": 2, "W": 2, "D": 3}, Bounds: "CNF (<=2 clauses x <=2 literals), cardinality and PB problems over 2 variables after parse-time simplification, with and without cost function; routes Problem.CNF->ParseCNF, Problem.PBString->ParseOPB, Solver.PBString->ParseOPB before and after Solve; models and costs compared for a symbolic assignment", Require: []string{"cnf", "opb", "solver-opb", "solver-opb-after-solve"}},
+			{Name: "solver.VP_C18_print_roundtrip", Kind: "E", Params: map[string]int{"n": 3, "m": 1, "k": 2, "W": 2, "D": 4, "CW": 1}, Bounds: "3 variables, <=1 clause, coefficients in [1,2]", Require: []string{"opb", "solver-opb"}},
+		},
+		Thorough: []HarnessRun{
+			{Name: "solver.VP_C18_print_roundtrip", Kind: "E", Params: map[string]int{"n": 3, "m": 2, "k": 2, "W": 3, "D": 6}, Bounds: "3 variables, <=2 clauses, coefficients in [1,3]", Require: []string{"cnf", "opb", "solver-opb", "solver-opb-after-solve"}},
+		},
+		Assumptions: []string{"a variable the rendering no longer mentions is read as unconstrained; a smaller NbVars alone is not a violation (OPB has no variable-count field that ParseOPB reads)"},
+		Outside:     "explain.Problem.CNF (exercised through C07/C08 inputs only); negative cost coefficients; more than 3 variables",
+	},
 }
